@@ -251,6 +251,20 @@ pub fn run(tier: &str) -> i32 {
             json!({"threshold": theta, "lazy": lazy, "max_blocks": n, "oracle": "fee percentiles = reference percentiles of the best chain at the last observation point"}),
         );
     }
+    // a tall tree: a short heavy branch is the heaviest chain while a light branch next to it
+    // grows by hundreds of blocks (a testnet minimum-difficulty storm); after every arrival
+    // and ingestion opportunity the served tip must still be the heavy branch's (the family
+    // of C03, which also judges the depth rule)
+    let storms: Vec<(Network, u32, usize, u128, usize)> = if quick {
+        vec![(Network::Regtest, 2, 2, 290, 520)]
+    } else {
+        vec![(Network::Regtest, 2, 2, 290, 520), (Network::Testnet, 144, 3, 1000, 620), (Network::Regtest, 600, 2, 290, 520)]
+    };
+    for (net, theta, f, fd, max_len) in &storms {
+        crate::props::c03::escape_family_weighted(&mut rep, *net, *theta, *f, *fd, *max_len, None);
+    }
+    rep.parts.push(json!({"part": "heavy short branch against a long light branch (served tip judged after every arrival)", "runs": storms.iter().map(|s| json!([s.0.to_string(), s.1, s.2, s.3.to_string(), s.4])).collect::<Vec<_>>()}));
+    rep.floor("escape_judgements_with_the_heaviest_branch_shorter_than_the_longest", 300);
     rep.floor("nonempty_answers_checked", 500);
     rep.floor("states_where_forks_carry_different_fees", 50);
     rep.rule = "all histories of <= n block deliveries (any live block as parent, difficulty from D, coinbase-only bodies paying 2^k satoshi so that a balance identifies the chain) interleaved with unsliced ingestion opportunities; a state is distinct by the fingerprint of the serialised canister state (statistics masked); outcome = best tip".into();
